@@ -205,3 +205,126 @@ def r_johnson(idx, rep, rule="R-JOHNSON"):
             good = u(a) == "self.barycentric_coordinates[:%d]" % k and u(b) == "%s.points[%s]" % (ps[0], ps[1])
         rep.check(ok and good, rule, sc.key + ".%s|normalised weights applied to the listed vertices" % mname, m.where,
                   "Solution.%s must set coords[i] = w_i / sum(w) in argument order and search_direction = coords[:%d] . points[vertex list]" % (mname, k))
+
+
+def r_parallel(idx, rep, rule="R-PARALLEL"):
+    """SimplexInfo keeps three parallel containers (points / indices_polytope1 / indices_polytope2: row k of each describes simplex
+    vertex k).  Every method that writes row t of one of them writes row t of all three, from the same source row (or from the
+    parameters that belong together)."""
+    rep.rule(rule, "SimplexInfo: points, indices_polytope1 and indices_polytope2 are written together — same target row, same source row — "
+                   "in every method (a vertex whose coordinates and pre-image indices get out of step yields closest points on the wrong "
+                   "vertices)", floor=4)
+    ci = idx.cls("distance3d.gjk._gjk_original::SimplexInfo")
+    init = ci.methods.get("__init__")
+    group = []
+    for st in iter_stmts(init.node.body):
+        if isinstance(st, ast.Assign) and isinstance(st.targets[0], ast.Attribute) and u(st.targets[0].value) == "self" and isinstance(st.value, ast.Call) \
+                and (call_name(st.value) or "").startswith("np.") and st.value.args:
+            shape = st.value.args[0]
+            first = shape.elts[0] if isinstance(shape, ast.Tuple) else shape
+            dims = len(shape.elts) if isinstance(shape, ast.Tuple) else 1
+            if const(first) == 4 and not (dims == 2 and const(shape.elts[1]) == 4):
+                group.append(st.targets[0].attr)
+    if len(group) != 3:
+        raise AnalysisError("SimplexInfo.__init__: expected three parallel containers with 4 rows, found %s" % group)
+    G = set(group)
+    for name, m in sorted(ci.methods.items()):
+        if name == "__init__":
+            continue
+        writes = {}      # target row text -> {attr: source}
+        for st in iter_stmts(m.node.body):
+            if isinstance(st, ast.Assign) and len(st.targets) == 1 and isinstance(st.targets[0], ast.Subscript) and isinstance(st.targets[0].value, ast.Attribute) \
+                    and u(st.targets[0].value.value) == "self" and st.targets[0].value.attr in G:
+                t = st.targets[0]
+                src = st.value
+                if isinstance(src, ast.Subscript) and isinstance(src.value, ast.Attribute):
+                    s = ("attr", u(src.value.value), src.value.attr, u(src.slice))
+                else:
+                    s = ("expr", u(src))
+                writes.setdefault(u(t.slice), {})[t.value.attr] = s
+        for row, w in sorted(writes.items()):
+            key = "%s|row [%s] written in all three containers from one source" % (m.key, row)
+            missing = sorted(G - set(w))
+            ok = not missing
+            why = "only %s is written at row [%s], %s keep the old vertex" % (sorted(w), row, missing)
+            if ok:
+                kinds = {s[0] for s in w.values()}
+                if kinds == {"attr"}:
+                    ok = len({(s[1], s[3]) for s in w.values()}) == 1 and all(s[2] == a for a, s in w.items())
+                    why = "rows are copied from different sources: %s" % {a: "%s.%s[%s]" % (s[1], s[2], s[3]) for a, s in w.items()}
+                elif kinds == {"expr"}:
+                    # parameters that belong together: <x>1 -> *1, <x>2 -> *2, the point -> points
+                    ok = all((a.endswith("1") and s[1].endswith("1")) or (a.endswith("2") and s[1].endswith("2")) or (not a[-1].isdigit() and not s[1][-1].isdigit())
+                             for a, s in w.items())
+                    why = "parameters are stored in the wrong containers: %s" % {a: s[1] for a, s in w.items()}
+                else:
+                    ok = False
+                    why = "mixed sources %s" % w
+            rep.check(ok, rule, key, m.where, "SimplexInfo.%s: %s" % (name, why), "in step")
+
+
+def r_dottable(idx, rep, rule="R-DOTTABLE"):
+    """SimplexInfo.select_vertex / select_line_segment / select_face compact the lower-triangular table of inner products when the
+    vertices (i, j, k) become rows (0, 1, 2): entry [r, c] of the new table is entry [max(P_r, P_c), min(P_r, P_c)] of the old one."""
+    rep.rule(rule, "SimplexInfo.select_*: when vertex P_r becomes row r (via _move_vertex(P_r, r)), dot_product_table[r, c] is refilled from "
+                   "dot_product_table[max(P_r, P_c), min(P_r, P_c)] (only the lower triangle is maintained) — checked symbolically for every "
+                   "refill statement, including the orientation of the `(b, a) if a < b else (a, b)` selectors", floor=15)
+    ci = idx.cls("distance3d.gjk._gjk_original::SimplexInfo")
+    for name in ("select_vertex", "select_line_segment", "select_face"):
+        m = ci.methods.get(name)
+        if m is None:
+            raise AnalysisError("SimplexInfo.%s vanished" % name)
+        ps = [p for p in m.params() if p != "self"]
+        rowof = {}
+        for c in calls(m.node):
+            if isinstance(c.func, ast.Attribute) and c.func.attr == "_move_vertex" and len(c.args) == 2 and isinstance(c.args[0], ast.Name) and isinstance(const(c.args[1]), int):
+                rowof[const(c.args[1])] = c.args[0].id
+        want_rows = dict(enumerate(ps))
+        rep.check(rowof == want_rows, rule, m.key + "|vertex P_r becomes row r", m.where,
+                  "%s must move (%s) to rows %s; found %s" % (name, ", ".join(ps), list(range(len(ps))), rowof), str(rowof))
+        if rowof != want_rows:
+            continue
+        # walk statements in order, tracking the latest (idx1, idx2) selector
+        sel = None
+        n = 0
+
+        def walk(body):
+            nonlocal sel, n
+            for st in body:
+                if isinstance(st, ast.If):
+                    walk(st.body)
+                    walk(st.orelse)
+                    continue
+                if isinstance(st, ast.Assign) and isinstance(st.targets[0], ast.Tuple) and len(st.targets[0].elts) == 2 and isinstance(st.value, ast.IfExp):
+                    v = st.value
+                    t = ncmp(v.test)
+                    names = [e.id for e in st.targets[0].elts if isinstance(e, ast.Name)]
+                    ok = False
+                    pair = None
+                    if t is not None and t[0] in ("<", "<=") and isinstance(v.body, ast.Tuple) and isinstance(v.orelse, ast.Tuple) and len(v.body.elts) == 2 and len(v.orelse.elts) == 2:
+                        a, b = u(t[1]), u(t[2])       # a < b
+                        ok = [u(e) for e in v.body.elts] == [b, a] and [u(e) for e in v.orelse.elts] == [a, b]
+                        pair = frozenset((a, b))
+                    sel = (names, pair, ok, st)
+                    continue
+                if isinstance(st, ast.Assign) and isinstance(st.targets[0], ast.Subscript) and isinstance(st.targets[0].value, ast.Attribute) \
+                        and st.targets[0].value.attr == "dot_product_table" and isinstance(st.value, ast.Subscript):
+                    tg = index_elts(st.targets[0])
+                    sr = index_elts(st.value)
+                    if len(tg) != 2 or len(sr) != 2 or not all(isinstance(const(x), int) for x in tg):
+                        continue
+                    n += 1
+                    r, c_ = const(tg[0]), const(tg[1])
+                    key = "%s|refill [%d, %d] #%d" % (m.key, r, c_, n)
+                    where = "%s:%d" % (m.module.relpath, st.lineno)
+                    want = frozenset((rowof.get(r), rowof.get(c_)))
+                    if r == c_:
+                        good = u(sr[0]) == u(sr[1]) == rowof.get(r)
+                        why = "diagonal entry [%d, %d] must come from [%s, %s]; found [%s, %s]" % (r, c_, rowof.get(r), rowof.get(r), u(sr[0]), u(sr[1]))
+                    else:
+                        good = sel is not None and [u(x) for x in sr] == sel[0] and sel[1] == want and sel[2] and r > c_
+                        why = "entry [%d, %d] must come from [max, min] of (%s); found [%s, %s]%s" % (
+                            r, c_, ", ".join(sorted(x for x in want if x)), u(sr[0]), u(sr[1]),
+                            "" if sel is None else " with selector `%s`" % u(sel[3]))
+                    rep.check(good, rule, key, where, "SimplexInfo.%s: %s (stale or transposed inner products make the sub-algorithm pick the wrong feature)" % (name, why), "ok")
+        walk(m.node.body)
